@@ -41,8 +41,8 @@ class Covariance(Metric[_Output]):
             return
         elif self.n == 0:
             self.n = n
-            self.ss_sum = ss_sum
-            self.sum = sum
+            self.ss_sum = ss_sum.clone()
+            self.sum = sum.clone()
         else:
             # Welford's algorithm for numerical stability
             delta = (self.sum / self.n) - (sum / n)
